@@ -634,6 +634,19 @@ func exerciseDoc(d *document.Document, r *rng, light bool) (ps []panicRec, notes
 			}
 		})
 		rect := rectangular(t)
+		// cell-level formatting with each option on its own, on every cell as it was read (a cell may hold no paragraph
+		// of its own: only a nested table, or nothing)
+		guard("Table.SetCellFormat (one option at a time)", &ps, func() {
+			nr := t.GetRowCount()
+			for i := 0; i < nr && i < 5; i++ {
+				for j := 0; j < len(t.Rows[i].Cells) && j < 5; j++ {
+					_ = t.SetCellFormat(i, j, &document.CellFormat{TextFormat: &document.TextFormat{Italic: true}})
+					_ = t.SetCellFormat(i, j, &document.CellFormat{HorizontalAlign: document.CellAlignRight})
+					_ = t.SetCellFormat(i, j, &document.CellFormat{VerticalAlign: document.CellVAlignCenter})
+					_ = t.SetCellFormat(i, j, &document.CellFormat{})
+				}
+			}
+		})
 		guard("Table.SetCellText", &ps, func() { _ = t.SetCellText(0, 0, "x") })
 		guard("Table.AddCellParagraph", &ps, func() { _, _ = t.AddCellParagraph(0, 0, "y") })
 		guard("Table.SetCellFormat", &ps, func() {
